@@ -274,6 +274,12 @@ def run(ctx, build):
             leaf = info['returned'].split('/')[-1]
         if st != [1] * cfg['N'] or res != list(range(cfg['N'])):
             violate(cls, 'final_results_differ_from_uninterrupted_run', 'status %s results %s; %s' % (st, res, desc), desc)
+        # the interrupted group is resumable as soon as its completion record exists (it is the last thing compute() creates);
+        # then the run must continue IN it -- the most recent such group -- and not open another one
+        resumable = sorted(k for k, (st0, res0) in before.items() if st0 is not None and res0 is not None and list(st0) != [1] * cfg['N'])
+        complete = [k for k, (st0, res0) in before.items() if st0 is not None and list(st0) == [1] * cfg['N']]
+        if resumable and not complete and leaf != resumable[-1]:
+            violate(cls, 'resumable_group_not_resumed', 'continued in %s although %s is resumable (marks %s); %s' % (leaf, resumable[-1], before[resumable[-1]][0], desc), desc)
         if leaf in before and before[leaf][0] is not None:
             hist['resumed'] += 1
             unmarked = [p for p, m in enumerate(before[leaf][0]) if m != 1]
